@@ -280,7 +280,11 @@ func (h *labHub) drain() []labRx {
 }
 
 // waitOne waits for the next reception up to d.
+// Long waits (those whose expiry becomes a verdict) count running time only.
 func (h *labHub) waitOne(d time.Duration) (labRx, bool) {
+	if d >= 200*time.Millisecond {
+		return patientRecv(h.rx, d)
+	}
 	select {
 	case r := <-h.rx:
 		return r, true
